@@ -45,6 +45,7 @@ pub const POOL: &[(&str, &str, &str)] = &[
     ("caller.txt", "{{ <Other /> }}", "valid-needs-other"),
     ("caller.txt", "plain {{ x }}", "valid"),
     ("caller.txt", "{{ <Missing /> }}", "unknown-component"),
+    ("crlf.txt", "line one\r\nline two \r\n{% raw %}\r\n raw \r\n{% endraw %}\r\n{{ x }}\r\n", "valid-with-crlf"),
     ("esc.html", "{{ x }}|{{ x | safe }}", "valid"),
     ("esc.txt", "{{ x }}", "valid"),
     ("esc.xml", "{{ x }}{% include \"esc.txt\" %}", "valid-needs-esc-txt"),
